@@ -1,6 +1,10 @@
 #!/usr/bin/env python3
 """C09 -- the circuit graph stays well formed (and memory safe) under every mutation.
 
+clause (vii): a clock and its logic driver nodes name each other (Clock::m_clockDriver / m_resetDriver vs. the clock port
+         of the Node_Signal2Clk / Node_Signal2Rst): model, theorem (replacement of a driver included), checker, harness
+         dump (protected members read through a derived class), op sequences and designs that override clock / reset
+         0..3 times in all interleavings.
 proof:   coq/Gatery/Properties_C09.v -- every operation of NodeIO.cpp / Node.cpp (connectInput = rewireInput,
          disconnectInput with its swap-with-back erase, resizeInputs/Outputs, bypassOutputToInput, moveToGroup,
          attach/detachClock, setOutputConnectionType with its guard, Node_Signal::connectInput, destruction)
@@ -43,6 +47,7 @@ WORK = V.BUILD / "work" / CID
 def parse_block(lines):
     """lines of one dump (n/G/K lines) -> dict"""
     nodes, groups, clocks = {}, {}, {}
+    drvs = {}
     dup = []
     for l in lines:
         t = l.split()
@@ -61,11 +66,13 @@ def parse_block(lines):
                 ty, _, cs = o.partition(":")
                 outs.append((ty, cs.split(",") if cs else []))
             nodes[nid] = dict(g=f.get("g", "-"), ins=f["i"].split(",") if f.get("i") else [], outs=outs,
-                              clks=f["c"].split(",") if f.get("c") else [], kind=f.get("k"))
+                              clks=f["c"].split(",") if f.get("c") else [], kind=f.get("k"), role=int(f.get("t", "0")))
         elif t[0] == "G":
             groups[int(t[1])] = dict(p=f.get("p", "-"), m=f["m"].split(",") if f.get("m") else [])
         elif t[0] == "K":
             clocks[int(t[1])] = f["m"].split(",") if f.get("m") else []
+            drvs[int(t[1])] = (f.get("d") or "-,-").split(",")
+    parse_block.drvs = drvs
     return nodes, groups, clocks, dup
 
 
@@ -110,6 +117,25 @@ def py_wf(lines, need_group):
             k = clocks[int(c)].count(f"{nid}.{cp}")
             if k != 1:
                 bad.append(f"node {nid} clock port {cp} registered {k} times with clock {c}")
+    # a clock and its logic driver nodes name each other
+    drvs = parse_block.drvs
+    for cid, d in drvs.items():
+        for which, role in ((0, 1), (1, 2)):
+            x = d[which] if which < len(d) else "-"
+            if x == "-":
+                continue
+            what = "clock" if which == 0 else "reset"
+            if x == "X" or int(x) not in nodes:
+                bad.append(f"clock {cid}: its logic {what} driver is a destroyed node"); continue
+            n = nodes[int(x)]
+            if n["role"] != role or not n["clks"] or n["clks"][0] != str(cid):
+                bad.append(f"clock {cid} names node {x} as its logic {what} driver, but that node is bound to clock {n['clks'][0] if n['clks'] else '-'}")
+    for nid, n in nodes.items():
+        if n["role"] in (1, 2) and n["clks"] and n["clks"][0] not in ("-", "X"):
+            c = int(n["clks"][0])
+            d = drvs.get(c, ["-", "-"])
+            if d[n["role"] - 1] != str(nid):
+                bad.append(f"node {nid} ({'Signal2Clk' if n['role'] == 1 else 'Signal2Rst'}) is bound to clock {c} whose current driver is {d[n['role'] - 1]}: stale second driver")
     # type agreement, restated independently for the kinds whose connectInput copies the driver's type to the output
     def otype(d):
         if d in ("-", "X"):
@@ -337,8 +363,62 @@ def gen_creating(seed, did):
     return [head] + new + tail, used + shapes
 
 
+def gen_clockdrv(seed, did):
+    """Clock::overrideClkWith / overrideRstWith / reset(signal) called 0..3 times each, in every interleaving, on the design
+    clock or on a derived clock (which then has its own pins and register), also re-binding to the same signal; on top
+    of a designgen design"""
+    import random
+    rng = random.Random(seed * 11 + 5)
+    lines, used = G.gen_design(seed, did)
+    head, body = lines[0], lines[1:]
+    tail = []
+    while body and body[-1].split()[0] in ("drop", "dropall"):
+        tail.insert(0, body.pop())
+    n = [0]
+
+    def nm(p):
+        n[0] += 1
+        return f"{p}{n[0]}_"
+    pre, post = [], []
+    bits = [nm("ob") for _ in range(3)]
+    pre += [f"inb {b}" for b in bits]
+    derived = rng.random() < 0.5
+    clk = ""
+    if derived:
+        dk = nm("dk")
+        clk = " " + dk
+        pre.append(f"dclk {dk}")
+    nclk, nrst = rng.choice([0, 1, 1, 2, 3]), rng.choice([0, 1, 2, 2, 3])
+    calls = ["c"] * nclk + ["r"] * nrst
+    rng.shuffle(calls)
+    same = rng.random() < 0.3
+    stm = []
+    for k, c in enumerate(calls):
+        b = bits[0] if same else rng.choice(bits)
+        if c == "c":
+            stm.append(f"ovrclk {b}{clk}")
+        else:
+            stm.append((f"rstsig {b}{clk}" if rng.random() < 0.2 else f"ovrrst {b}{clk}"))
+    # the register(s) of that clock: somewhere between the calls
+    reg = []
+    if derived:
+        j, q, s2 = nm("dj"), nm("dq"), nm("ds")
+        reg = [f"clkscope{clk}", f"in {j} 4", f"reg {q} {j} rst 0000", f"bin {s2} add {q} {j}", f"out od{n[0]} {s2}", "endclkscope"]
+    else:
+        j, q = nm("mj"), nm("mq")
+        reg = [f"in {j} 3", f"reg {q} {j} rst 000", f"out om{n[0]} {q}"]
+    cut = rng.randint(0, len(stm))
+    stm = stm[:cut] + reg + stm[cut:]
+    # part of the calls before the design body, part after (more nodes created in between)
+    cut = rng.randint(0, len(stm))
+    depth_ok = [k for k in range(len(stm) + 1) if sum(1 for x in stm[:k] if x.startswith("clkscope")) == sum(1 for x in stm[:k] if x.startswith("endclkscope"))]
+    cut = max(k for k in depth_ok if k <= cut)
+    return [head] + pre + stm[:cut] + body + stm[cut:] + tail, used + [f"clkdrv:{''.join(calls) or '-'}{':derived' if derived else ''}{':same' if same else ''}"]
+
+
 # --------------------------------------------------------------------------------------------------
 # T1
+# --------------------------------------------------------------------------------------------------
 # --------------------------------------------------------------------------------------------------
 def reorder_events(before, after):
     """number of consumer / member lists whose surviving elements changed their relative order"""
@@ -403,7 +483,7 @@ def run_t1(harness, driver, mode_args, work, tag, seed):
         for kv in m.group(1).split():
             k, _, v = kv.partition("=")
             hist[k] = int(v)
-    st = dict(ops=0, seqs=0, lines=0, changed=0, distinct=0, reorders=0, refused={}, hist=hist, model_inv_false=0)
+    st = dict(ops=0, seqs=0, lines=0, changed=0, distinct=0, reorders=0, refused={}, hist=hist, model_inv_false=0, setdrv={})
     mismatch = None
     if driver is None:
         return st, None, crashed, impl
@@ -450,6 +530,13 @@ def run_t1(harness, driver, mode_args, work, tag, seed):
                     if h not in seen:
                         seen.add(h)
                     st["reorders"] += 1 if reorder_events(prev, cur_i) else 0
+                t = op.split()
+                if len(t) >= 5 and t[1] == "setdrv" and t[-1] != "!throw" and prev is not None:
+                    kl = next((l for l in prev if l.startswith(f"K {t[3]} ")), None)
+                    if kl:
+                        d = kl.split()[2][2:].split(",")[0 if t[2] == "c" else 1]
+                        key = "first_binding" if d == "-" else "rebinding_the_current_driver" if d == t[4] else "replacing_an_existing_driver"
+                        st["setdrv"][key] = st["setdrv"].get(key, 0) + 1
                 prev, op = cur_i, None
             elif not li.startswith(("op ", "seq ", "endseq")):
                 cur_i.append(li)
@@ -667,6 +754,16 @@ def canary(driver, files, work):
     i = first(lambda l: l.startswith("n ") and " k=fwd " in l and re.search(r" i=\d+\.\d+ o=1\.(\d+):", l))
     if i is not None:
         dam["type disagrees"] = src[:i] + [re.sub(r" o=1\.(\d+):", lambda m: f" o=1.{int(m.group(1)) + 3}:", src[i], count=1)] + src[i + 1:]
+    for f in files:
+        hit = None
+        for tag, lines in blocks_t2(f):
+            if any(re.match(r"K \d+ d=\d+,\d+ ", l) for l in lines):
+                hit = lines
+        if hit:
+            i = next(k for k, l in enumerate(hit) if re.match(r"K \d+ d=\d+,\d+ ", l))
+            dam["reset driver bound but not named by its clock (stale driver)"] = hit[:i] + [re.sub(r"d=(\d+),\d+", r"d=\1,-", hit[i])] + hit[i + 1:]
+            dam["clock names a destroyed node as its driver"] = hit[:i] + [re.sub(r"d=\d+,", "d=X,", hit[i])] + hit[i + 1:]
+            break
     p = work / "canary.wf"
     with open(p, "w") as f:
         for k, lines in dam.items():
@@ -843,14 +940,14 @@ def main():
     if not replay:
         nseq, nops = (300, 150) if quick else (1500, 200)
         t1_runs.append((f"generated nseq={nseq} nops={nops} seed={seed}", ["nodeio", str(nseq), str(nops)]))
-    t1 = dict(ops=0, seqs=0, lines=0, changed=0, distinct=0, reorders=0, refused={}, hist={}, model_inv_false=0)
+    t1 = dict(ops=0, seqs=0, lines=0, changed=0, distinct=0, reorders=0, refused={}, hist={}, model_inv_false=0, setdrv={})
     impl_files = []
     for k, (name, args) in enumerate(t1_runs):
         st, mismatch, crashed, impl = run_t1(harness, driver, args, WORK / "t1", f"r{k}", seed)
         impl_files.append((name, args, impl))
         for key in ("ops", "seqs", "lines", "changed", "distinct", "reorders", "model_inv_false"):
             t1[key] += st[key]
-        for key in ("refused", "hist"):
+        for key in ("refused", "hist", "setdrv"):
             for a, b in st[key].items():
                 t1[key][a] = t1[key].get(a, 0) + b
         if crashed:
@@ -888,6 +985,8 @@ def main():
             designs.append(G.gen_design(seed * 100003 + i, f"g{i}"))
         for i in range(nshape):
             designs.append(gen_creating(seed * 100003 + 50000 + i, f"c{i}"))
+        for i in range(nshape):
+            designs.append(gen_clockdrv(seed * 100003 + 70000 + i, f"k{i}"))
     slacks = "-,0,1,2,3" if quick else "-,0,1,2,3,5,8"
     fails, t2, t2crashed, files = ([], dict(dumps=0, ok=0, fail=0, skipped=0, kinds={}, errors=[]), [], [])
     prog = {d[0][0].split()[1]: d for d in designs}
@@ -1050,11 +1149,13 @@ def main():
     rep.cov["traces_validated_against_impl"] = t1["ops"]
     rep.cov["t1"] = dict(sequences=t1["seqs"], calls=t1["ops"], lines_compared=t1["lines"], calls_that_changed_the_graph=t1["changed"],
                          calls_after_which_a_consumer_or_member_list_was_reordered=t1["reorders"],
-                         refused_by_the_model_and_thrown_by_the_code=t1["refused"], calls_by_kind=t1["hist"])
+                         refused_by_the_model_and_thrown_by_the_code=t1["refused"], calls_by_kind=t1["hist"],
+                         setLogicDriver_calls=t1["setdrv"])
     rep.cov["t2"] = dict(designs=len(designs), dumps_checked=t2["dumps"], accepted=t2["ok"], rejected=t2["fail"], skipped_variants=t2["skipped"],
                          dumps_that_differ_from_predecessor=t2_distinct, node_kinds_seen=t2["kinds"],
                          boundaries_that_changed_the_graph=dict(sorted(changed.items(), key=lambda kv: -kv[1])[:60]), canary=can,
-                         node_creating_shape_designs=nshape, node_vector_slacks=slacks, forked_cases=len(files),
+                         node_creating_shape_designs=nshape, clock_driver_shape_designs=nshape,
+                         clock_driver_call_patterns=sorted({t for d in designs for t in d[1] if str(t).startswith("clkdrv:")}), node_vector_slacks=slacks, forked_cases=len(files),
                          cases_that_died=len(crashes), died_in={k: len(v) for k, v in by_pass.items()},
                          passes_in_which_the_node_vector_was_reallocated_under_tight_capacity=dict(sorted(reallocs.items(), key=lambda kv: -kv[1])),
                          poison="operator new/delete replaced in the harness: freed blocks filled with 0xDD and quarantined; stale read faults, stale write detected")
@@ -1082,6 +1183,9 @@ def main():
         "T2 covers the designs the generator reaches; passes are not modelled, only their results are checked at every boundary",
         "the per-kind type requirement table (WfDefs.kind_req) is our reading of the connectInput functions of the core nodes; kinds not in the table have no requirement",
         "the dumper prints `X` for any pointer not found among the live objects of the circuit without dereferencing it; Clock::getClockedNodes itself dereferences its entries",
+        "Clock::m_clockDriver / m_resetDriver have no accessor; the harness reads the protected members through a class derived from hlim::Clock",
+        "model contract: the clock port of a Signal2Clk / Signal2Rst node is only changed by Clock::setLogic*Driver, a driver node is bound to at most one clock, "
+        "and a node still named as a driver is not destroyed (~BaseNode does not reset Clock::m_clockDriver; such a node has side effects and no pass culls it)",
         "T2: Circuit::m_nextNodeId / m_nextGroupId / m_nextClockId are not observable; the imported graph takes max id + 1, so for real dumps clause (v) checks uniqueness of ids only",
         "use-after-free is observed dynamically only: poisoned freed memory (quick + thorough) and ASan (thorough) on the sampled designs x slacks; a stale read of a block "
         "that left the 96 MB quarantine and was reused is not detected by the poison",
